@@ -30,8 +30,7 @@ CONSTANTS
   \* Behaviour switches: TRUE = the code as it is on the tree with the repair, FALSE = before.
   FixSilentExit, \* worker.run: exit silently on context.Canceled only if its own context is done
   FixResumeDone, \* coordinator.run: checkDone once after resuming from the checkpoint
-  FixRecentCp,   \* newCheckpoint: in-flight recent jobs are persisted too
-  FixRetryCount  \* handleRecentOrCatchupResult: keep the attempt count of an already failed height
+  FixRecentCp    \* newCheckpoint: in-flight recent jobs are persisted too
 
 Heights == 1..MaxHeight
 Min(a, b) == IF a < b THEN a ELSE b
@@ -194,14 +193,13 @@ Deliver(id) ==
      IN /\ jobs' = Restrict(jobs, js)
         /\ IF j.type \in {"recent", "catchup"}
              THEN \* heights of the range that did not fail again leave `failed`; failed ones are
-                  \* (re)inserted -- with attempt count 1 in the code before FixRetryCount
+                  \* (re)inserted with attempt count 1 (RetryCountReset: even if the height already
+                  \* had a higher count -- reachable only when a resumed worker overlaps cp.Failed)
                   LET keep == {h \in DOMAIN failed : ~(h \in j.from..j.to) \/ h \in j.wfailed}
                       dom  == keep \cup j.wfailed
                   IN /\ failed' = [h \in dom |->
                                      IF h \in j.wfailed
-                                       THEN [count |-> IF FixRetryCount /\ h \in DOMAIN failed
-                                                         THEN failed[h].count + 1 ELSE 1,
-                                             due |-> FALSE]
+                                       THEN [count |-> 1, due |-> FALSE]
                                        ELSE failed[h]]
                      /\ UNCHANGED inRetry
              ELSE \* retry job: failed again -> back to `failed` with count+1; inRetry cleaned
